@@ -1,10 +1,6 @@
 # defect-hunter round: pre-repair forms of D12-D18 as firing witnesses, alternative repairs as quiet ones
 fire("c11-D14-prefix-write-branch", "C11", "C11.removal", ("client.go", "	if writeErr != nil {\n		if !c.delete(id) {\n			// Transaction is completed already by someone else.\n			return\n		}\n", "	if writeErr != nil {\n		c.delete(id)\n"))
 fire("c03-D12-prefix-equal-nil", "C03", "C03.equal", ("message.go", "func attrEqual(attrA, attrB Attributes) bool {\n", "func attrEqual(attrA, attrB Attributes) bool {\n	if attrA == nil && attrB == nil {\n		return true\n	}\n	if attrA == nil || attrB == nil {\n		return false\n	}\n"))
-fire("c03-D13-prefix-raw-not-cut", "C03", "C03.rawlen", ("message.go", "	// Bytes after the message are not a part of it.\n	m.Raw = buf[:fullSize]\n", ""))
-fire("c03-raw-cut-one-short", "C03", "C03.rawlen", ("message.go", "	m.Raw = buf[:fullSize]\n", "	m.Raw = buf[:fullSize-1]\n"))
-quiet("c03-raw-cut-through-field", "C03,C01,C02,C08,C12,C20", ("message.go", "	m.Raw = buf[:fullSize]\n", "	m.Raw = m.Raw[:messageHeaderSize+size]\n"))
-fire("c03-raw-cut-only-in-loop", "C03", "C03.rawlen", ("message.go", "		m.Attributes = append(m.Attributes, attr)\n	}\n	// Bytes after the message are not a part of it.\n	m.Raw = buf[:fullSize]\n", "		m.Attributes = append(m.Attributes, attr)\n		m.Raw = buf[:fullSize]\n	}\n"))
 fire("c13-D15-prefix-sethandler-nil", "C13", "C13.sethandler", ("agent.go", "	if h == nil {\n		h = NoopHandler()\n	}\n	a.handler = h\n	a.mux.Unlock()\n", "	a.handler = h\n	a.mux.Unlock()\n"))
 quiet("c13-sethandler-nil-guard-as-else", "C13,C14", ("agent.go", "	if h == nil {\n		h = NoopHandler()\n	}\n	a.handler = h\n	a.mux.Unlock()\n", "	if h != nil {\n		a.handler = h\n	} else {\n		a.handler = NoopHandler()\n	}\n	a.mux.Unlock()\n"))
 fire("c17-D16-prefix-repeated-transport", "C17", "C17.tables", ("uri.go", " || len(qArgs[\"transport\"]) > 1", ""))
@@ -12,3 +8,19 @@ fire("c17-D17-prefix-separator-only-query", "C17", "C17.tables", ("uri.go", "		i
 quiet("c17-stun-query-raw-test-only", "C17,C16", ("uri.go", "		qArgs, err := url.ParseQuery(rawParts.RawQuery)\n		if err != nil || len(qArgs) > 0 || rawParts.RawQuery != \"\" {\n			return nil, ErrSTUNQuery\n		}\n		uri.Proto = ProtoTypeUDP", "		if len(rawParts.RawQuery) > 0 {\n			return nil, ErrSTUNQuery\n		}\n		uri.Proto = ProtoTypeUDP"))
 fire("c17-D18-prefix-os-resolver", "C17", "C17.net", ("client.go", "nw.ResolveUDPAddr(\"udp\", addr)", "net.ResolveUDPAddr(\"udp\", addr)"))
 fire("c17-os-dial", "C17", "C17.net", ("client.go", "		if conn, err = nw.Dial(\"udp\", addr); err != nil {", "		if conn, err = net.Dial(\"udp\", addr); err != nil {"))
+
+# D13 (first repaired by cutting Raw in Decode, 83ead49; that repair moved Check's scratch space onto the
+# caller's next message when Raw is a window of a larger buffer, so it was replaced by 0a62791: the setters
+# hash Raw[:20+Length]): pre-repair forms and near misses
+fire("c04-D13-prefix-hmac-over-whole-raw", "C04", "C04.flow", ("integrity.go", "newHMAC(i, msg.Raw[:end], msg.Raw[len(msg.Raw):])", "newHMAC(i, msg.Raw, msg.Raw[len(msg.Raw):])"))
+fire("c05-D13-prefix-crc-over-whole-raw", "C05", "C05.add", ("fingerprint.go", "FingerprintValue(m.Raw[:end])", "FingerprintValue(m.Raw)"))
+fire("c04-hmac-span-from-bumped-length", "C04", "C04.flow", ("integrity.go", "	end := messageHeaderSize + int(length)\n", "	end := messageHeaderSize + int(msg.Length)\n"))
+fire("c05-crc-span-one-short", "C05", "C05.add", ("fingerprint.go", "	end := messageHeaderSize + int(l)\n", "	end := messageHeaderSize + int(l) - 1\n"))
+quiet("c05-crc-span-inline", "C05,C03,C07", ("fingerprint.go", "	end := messageHeaderSize + int(l)\n	m.grow(end)\n	val := FingerprintValue(m.Raw[:end])\n", "	m.grow(messageHeaderSize + int(l))\n	val := FingerprintValue(m.Raw[0 : int(l)+messageHeaderSize])\n"))
+# D27, D28, D29 (second hunter round): pre-repair forms
+fire("c08-D27-prefix-header-before-length-reset", "C08", "C08.reset", ("message.go", "	m.Length = 0\n	m.WriteHeader()\n	m.WriteAttributes()", "	m.WriteHeader()\n	m.Length = 0\n	m.WriteAttributes()"))
+fire("c03-D28-prefix-tid-without-grow", "C03", "C03.hdrbounds", ("message.go", "	m.grow(messageHeaderSize)\n	copy(m.Raw[8:messageHeaderSize], m.TransactionID[:]) // transaction ID\n}\n\n// WriteAttributes", "	copy(m.Raw[8:messageHeaderSize], m.TransactionID[:]) // transaction ID\n}\n\n// WriteAttributes"))
+fire("c03-writetype-grow-too-small", "C03", "C03.hdrbounds", ("message.go", "	m.grow(2)\n", "	m.grow(1)\n"))
+fire("c17-D29-prefix-connected-socket-to-dtls", "C17", "C17.dtlsconn", ("client.go", "dtls.Client(dtlsnet.PacketConnFromConn(udpConn), udpConn.RemoteAddr(), &dtlsCfg)", "dtls.Client(udpConn, udpConn.RemoteAddr(), &dtlsCfg)"), ("client.go", "	dtlsnet \"github.com/pion/dtls/v3/pkg/net\"\n", ""))
+# D30: pre-repair form (interface-to-interface conversion on the hot path)
+fire("c20-D30-prefix-iface-conversion", "C20", "C20.ifaceconv", ("integrity.go", "	// Not writeOrPanic: converting mac to io.Writer allocates a runtime\n	// type-assertion cache entry at an unpredictable call.\n	if _, err := mac.Write(message); err != nil {\n		panic(err) //nolint\n	}\n", "	writeOrPanic(mac, message)\n"))
